@@ -96,6 +96,11 @@ func layoutStorage(texts []string, ids []int) (*filterlist.RuleStorage, error) {
 	// of 12 consecutive storages: 8 in memory, 2 in memory without a final line break, 1 in files, 1 in files without
 	// a final line break (variant: 0..2 memory, 3 memory/unterminated, 4 files, 5 files/unterminated)
 	variant := []int{0, 1, 2, 3, 0, 4, 1, 3, 2, 0, 1, 5}[layoutCounter%12]
+	// every fifth storage also has lists without a single rule - empty, blank lines, comments only - in front of,
+	// between and behind the lists of the case: they mean nothing, wherever they stand
+	if layoutCounter%5 == 2 {
+		texts, ids = withRulelessLists(texts, ids)
+	}
 	var ls []filterlist.RuleList
 	var cleanup func()
 	if variant >= 4 {
@@ -146,6 +151,27 @@ func layoutStorage(texts []string, ids []int) (*filterlist.RuleStorage, error) {
 		}
 	}
 	return st, nil
+}
+
+// withRulelessLists puts a list without rules in front of, between and behind the given ones (ids not used by them).
+func withRulelessLists(texts []string, ids []int) (ts []string, is []int) {
+	used := map[int]bool{}
+	for i := range texts {
+		used[ids[i%len(ids)]] = true
+	}
+	next := 7000
+	fresh := func() int {
+		for next++; used[next]; next++ {
+		}
+		return next
+	}
+	fillers := []string{"! nothing but a comment\n# and another one\n", "", "\n\n   \n"}
+	for i, t := range texts {
+		ts, is = append(ts, fillers[i%len(fillers)]), append(is, fresh())
+		ts, is = append(ts, t), append(is, ids[i%len(ids)])
+	}
+	ts, is = append(ts, fillers[len(texts)%len(fillers)]), append(is, fresh())
+	return ts, is
 }
 
 // layoutCleanup closes what layoutStorage still holds open (called at the end of a command).
